@@ -11,31 +11,37 @@ import Ymq.Model.SiqsPoly
 namespace Ymq.PolyInv
 open Ymq.SiqsPoly
 
-theorem xgcd_spec (a : Int) (p : Int) : ∀ (r0 : Nat) (s0 : Int) (r1 : Nat) (s1 : Int),
+theorem xgcd_spec (a : Int) (p : Int) : ∀ (f r0 : Nat) (s0 : Int) (r1 : Nat) (s1 : Int), r1 < f →
     p ∣ s0 * a - r0 → p ∣ s1 * a - r1 →
-    (xgcd r0 s0 r1 s1).1 = Nat.gcd r0 r1 ∧
-      p ∣ (xgcd r0 s0 r1 s1).2 * a - ((xgcd r0 s0 r1 s1).1 : Int) := by
-  intro r0 s0 r1 s1
-  fun_induction xgcd r0 s0 r1 s1 with
-  | case1 r0 s0 s1 =>
-    intro h0 _
-    exact ⟨by simp, h0⟩
-  | case2 r0 s0 r1 s1 hne ih =>
-    intro h0 h1
-    have hstep : p ∣ (s0 - ((r0 / r1 : Nat) : Int) * s1) * a - ((r0 % r1 : Nat) : Int) := by
-      have e : ((r0 % r1 : Nat) : Int) = (r0 : Int) - ((r0 / r1 : Nat) : Int) * r1 := by
-        have h := Nat.div_add_mod r0 r1
-        have hz : ((r1 * (r0 / r1) + r0 % r1 : Nat) : Int) = (r0 : Int) := by exact_mod_cast h
-        push_cast at hz ⊢
-        linarith
-      rw [e]
-      have : (s0 - ((r0 / r1 : Nat) : Int) * s1) * a - ((r0 : Int) - ((r0 / r1 : Nat) : Int) * r1)
-          = (s0 * a - r0) - ((r0 / r1 : Nat) : Int) * (s1 * a - r1) := by ring
-      rw [this]
-      exact Int.dvd_sub h0 (Dvd.dvd.mul_left h1 _)
-    obtain ⟨g, hg⟩ := ih h1 hstep
-    refine ⟨?_, hg⟩
-    rw [g, Nat.gcd_comm r0 r1, Nat.gcd_rec r1 r0, Nat.gcd_comm]
+    (xgcd f r0 s0 r1 s1).1 = Nat.gcd r0 r1 ∧
+      p ∣ (xgcd f r0 s0 r1 s1).2 * a - ((xgcd f r0 s0 r1 s1).1 : Int) := by
+  intro f
+  induction f with
+  | zero => intro r0 s0 r1 s1 h; omega
+  | succ f ih =>
+    intro r0 s0 r1 s1 hf h0 h1
+    rw [xgcd]
+    by_cases hr : r1 = 0
+    · subst hr
+      simp only [if_true]
+      exact ⟨by simp, h0⟩
+    · simp only [hr, if_false]
+      have hstep : p ∣ (s0 - ((r0 / r1 : Nat) : Int) * s1) * a - ((r0 % r1 : Nat) : Int) := by
+        have e : ((r0 % r1 : Nat) : Int) = (r0 : Int) - ((r0 / r1 : Nat) : Int) * r1 := by
+          have h := Nat.div_add_mod r0 r1
+          have hz : ((r1 * (r0 / r1) + r0 % r1 : Nat) : Int) = (r0 : Int) := by exact_mod_cast h
+          push_cast at hz ⊢
+          linarith
+        rw [e]
+        have : (s0 - ((r0 / r1 : Nat) : Int) * s1) * a - ((r0 : Int) - ((r0 / r1 : Nat) : Int) * r1)
+            = (s0 * a - r0) - ((r0 / r1 : Nat) : Int) * (s1 * a - r1) := by ring
+        rw [this]
+        exact Int.dvd_sub h0 (Dvd.dvd.mul_left h1 _)
+      have hlt : r0 % r1 < f := by
+        have := Nat.mod_lt r0 (Nat.pos_of_ne_zero hr); omega
+      obtain ⟨g, hg⟩ := ih r1 s1 (r0 % r1) (s0 - ((r0 / r1 : Nat) : Int) * s1) hlt h1 hstep
+      refine ⟨?_, hg⟩
+      rw [g, Nat.gcd_comm r0 r1, Nat.gcd_rec r1 r0, Nat.gcd_comm]
 
 private theorem start_inv (a p : Nat) :
     (p : Int) ∣ (1 : Int) * (a : Int) - ((a % p : Nat) : Int) := by
@@ -46,24 +52,24 @@ theorem invMod_some {a p x : Nat} (hp : 0 < p) (h : invMod a p = some x) :
     x < p ∧ a * x % p = 1 % p ∧ Nat.gcd a p = 1 := by
   unfold invMod at h
   dsimp only at h
-  obtain ⟨hg, hd⟩ := xgcd_spec (a : Int) (p : Int) p 0 (a % p) 1 (by simp) (start_inv a p)
+  obtain ⟨hg, hd⟩ := xgcd_spec (a : Int) (p : Int) (p + 1) p 0 (a % p) 1 (by have := Nat.mod_lt a hp; omega) (by simp) (start_inv a p)
   split at h
   · rename_i hone
     injection h with h
     rw [hone] at hd hg
     have hp' : (0 : Int) < p := by exact_mod_cast hp
-    have hx0 : 0 ≤ (xgcd p 0 (a % p) 1).2 % (p : Int) := Int.emod_nonneg _ (by omega)
-    have hxp : (xgcd p 0 (a % p) 1).2 % (p : Int) < p := Int.emod_lt_of_pos _ hp'
-    have hxi : (x : Int) = (xgcd p 0 (a % p) 1).2 % (p : Int) := by
+    have hx0 : 0 ≤ (xgcd (p + 1) p 0 (a % p) 1).2 % (p : Int) := Int.emod_nonneg _ (by omega)
+    have hxp : (xgcd (p + 1) p 0 (a % p) 1).2 % (p : Int) < p := Int.emod_lt_of_pos _ hp'
+    have hxi : (x : Int) = (xgcd (p + 1) p 0 (a % p) 1).2 % (p : Int) := by
       rw [← h]; exact (Int.toNat_of_nonneg hx0)
     refine ⟨by omega, ?_, ?_⟩
-    · have h1 : ((1 : Nat) : Int) ≡ (xgcd p 0 (a % p) 1).2 * a [ZMOD p] :=
+    · have h1 : ((1 : Nat) : Int) ≡ (xgcd (p + 1) p 0 (a % p) 1).2 * a [ZMOD p] :=
         Int.modEq_iff_dvd.mpr hd
-      have h2 : (x : Int) ≡ (xgcd p 0 (a % p) 1).2 [ZMOD p] := hxi ▸ Int.mod_modEq _ _
+      have h2 : (x : Int) ≡ (xgcd (p + 1) p 0 (a % p) 1).2 [ZMOD p] := hxi ▸ Int.mod_modEq _ _
       have h3 : ((a * x : Nat) : Int) ≡ ((1 : Nat) : Int) [ZMOD p] := by
         push_cast
-        calc (a : Int) * x ≡ a * (xgcd p 0 (a % p) 1).2 [ZMOD p] := Int.ModEq.mul_left _ h2
-          _ = (xgcd p 0 (a % p) 1).2 * a := by ring
+        calc (a : Int) * x ≡ a * (xgcd (p + 1) p 0 (a % p) 1).2 [ZMOD p] := Int.ModEq.mul_left _ h2
+          _ = (xgcd (p + 1) p 0 (a % p) 1).2 * a := by ring
           _ ≡ 1 [ZMOD p] := by simpa using h1.symm
       exact Int.natCast_modEq_iff.mp h3
     · have h4 : Nat.gcd p (a % p) = 1 := hg.symm
@@ -72,18 +78,18 @@ theorem invMod_some {a p x : Nat} (hp : 0 < p) (h : invMod a p = some x) :
   · exact absurd h (by simp)
 
 /-- coprime operands always have an inverse -/
-theorem invMod_isSome {a p : Nat} (h : Nat.gcd a p = 1) : ∃ x, invMod a p = some x := by
+theorem invMod_isSome {a p : Nat} (hp : 0 < p) (h : Nat.gcd a p = 1) : ∃ x, invMod a p = some x := by
   unfold invMod
   dsimp only
-  obtain ⟨hg, _⟩ := xgcd_spec (a : Int) (p : Int) p 0 (a % p) 1 (by simp) (start_inv a p)
-  have : (xgcd p 0 (a % p) 1).1 = 1 := by
+  obtain ⟨hg, _⟩ := xgcd_spec (a : Int) (p : Int) (p + 1) p 0 (a % p) 1 (by have := Nat.mod_lt a hp; omega) (by simp) (start_inv a p)
+  have : (xgcd (p + 1) p 0 (a % p) 1).1 = 1 := by
     rw [hg, Nat.gcd_comm, ← Nat.gcd_rec, Nat.gcd_comm]; exact h
   rw [if_pos this]
   exact ⟨_, rfl⟩
 
-theorem invMod_none {a p : Nat} (h : invMod a p = none) : Nat.gcd a p ≠ 1 := by
+theorem invMod_none {a p : Nat} (hp : 0 < p) (h : invMod a p = none) : Nat.gcd a p ≠ 1 := by
   intro hc
-  obtain ⟨x, hx⟩ := invMod_isSome hc
+  obtain ⟨x, hx⟩ := invMod_isSome hp hc
   rw [h] at hx; cases hx
 
 /-- the inverse modulo a prime of a residue that is not a multiple of the prime -/
@@ -92,7 +98,7 @@ theorem invMod_prime {a p : Nat} (hp : Nat.Prime p) (ha : a % p ≠ 0) :
   have hc : Nat.gcd a p = 1 := by
     rw [Nat.gcd_comm]
     exact (Nat.Prime.coprime_iff_not_dvd hp).mpr (fun h => ha (Nat.mod_eq_zero_of_dvd h))
-  obtain ⟨x, hx⟩ := invMod_isSome hc
+  obtain ⟨x, hx⟩ := invMod_isSome hp.pos hc
   obtain ⟨h1, h2, _⟩ := invMod_some hp.pos hx
   exact ⟨x, hx, h1, by rw [h2, Nat.mod_eq_of_lt hp.one_lt]⟩
 
